@@ -340,19 +340,26 @@ func runC01(r *core.Run) {
 		data, fail := writeFastaChecked(recs)
 		return data, wantFasta(recs), true, fail
 	})
-	escapeSpellingsClause(r, "fasta", []string{"name", "seq"}, func(field, v string) ([]byte, []obsItem, bool, string) {
-		if hasDelim(v) || (field == "seq" && strings.Contains(v, ">")) {
-			return nil, nil, false, ""
+	fastaFields := func(field string, vals []string) ([]byte, []obsItem, bool, string) {
+		recs := []faRec{{"first", "AC"}}
+		for i, v := range vals {
+			if hasDelim(v) || (field == "seq" && strings.Contains(v, ">")) {
+				return nil, nil, false, ""
+			}
+			rec := faRec{core.S(fmt.Sprint("n", i)), "ACGT"}
+			if field == "name" {
+				rec.Name = core.S(v)
+			} else {
+				rec.Seq = core.S(v)
+			}
+			recs = append(recs, rec)
 		}
-		recs := []faRec{{"first", "AC"}, {"n", "ACGT"}, {"last", "G"}}
-		if field == "name" {
-			recs[1].Name = core.S(v)
-		} else {
-			recs[1].Seq = core.S(v)
-		}
+		recs = append(recs, faRec{"last", "G"})
 		data, fail := writeFastaChecked(recs)
 		return data, wantFasta(recs), true, fail
-	})
+	}
+	escapeSpellingsClause(r, "fasta", []string{"name", "seq"}, fastaFields)
+	relativesClause(r, "fasta", []string{"name", "seq"}, fastaFields)
 	interleavedReadersFor(r, []string{"fasta"})
 	consumerMutatesRecords(r, []string{"fasta"})
 	bigFiles(r, "fasta", []int{0})
